@@ -16,7 +16,7 @@ RULE = ("For each scenario (async chain with nested generator-based managers and
         "already has the first fault). Oracle: extract returns; each injected exception is found by identity in .error of exactly "
         "the Stack that was under construction (bare if alone, inside an ExceptionGroup otherwise) and in no other Stack; all "
         "enclosing stacks keep exactly their fault-free frames, the faulted stack keeps the frames outward of the failure; "
-        "format(), format_flat(), as_stdlib_summary() succeed. Plus a fixed list of non-stack inputs. "
+        "format(), format_flat(), as_stdlib_summary() succeed. Plus a fixed list of non-stack inputs, and a custom item that never finishes unwrapping while its __repr__ raises (direct, through another item, awaited by a coroutine). "
         "evaluations = injected runs; distinct_nontrivial = distinct (scenario, fault index tuple).")
 ASSUMPTIONS = ["faults are exceptions derived from Exception raised in place of the hook call (single faults: as a direct Exception subclass and as subclasses of RuntimeError, IndexError, KeyError, AttributeError, TypeError, ValueError, AssertionError, LookupError, OSError, NotImplementedError (not StopIteration: from an iterator step that is the end of the iteration, not a fault); pairs: Exception subclass)",
                "'Stack under construction' = innermost active extract_child call at injection time"]
@@ -688,6 +688,85 @@ def nonstack_inputs(ctx):
             ctx.violation({"scenario": "nonstack", "expr": expr}, "; ".join(problems)[:1000], "nonstack")
 
 
+_HOSTILE = {}
+
+
+def hostile_items(ctx):
+    """Objects that are hostile to the error path itself: a custom stack item whose unwrap hook makes no progress (it
+    returns the item) AND whose __repr__ raises - the runaway-unwrapping report mentions the item. Passed directly,
+    reached through a healthy item, and awaited by a suspended coroutine (whose frame must be kept)."""
+    import stackscope
+    if not _HOSTILE:
+        class Job(object):
+            broken = True
+
+            def __init__(s, inner=None):
+                s.inner = inner
+
+            def __repr__(s):
+                if Job.broken:
+                    raise LookupError("repr of a half-initialised Job")
+                return "<Job>"
+
+            def __await__(s):
+                return s
+
+            def __iter__(s):
+                return s
+
+            def __next__(s):
+                return "parked"
+
+        @stackscope.unwrap_stackitem.register(Job)
+        def _(job):
+            return job.inner if job.inner is not None else job
+        _HOSTILE["Job"] = Job
+    Job = _HOSTILE["Job"]
+
+    async def worker(job):
+        await job
+    for label in ("direct", "through-healthy-item", "awaited"):
+        if not ctx.mine(hash(label) % 7):
+            pass
+        Job.broken = True
+        job = Job()
+        co = None
+        if label == "direct":
+            target = job
+        elif label == "through-healthy-item":
+            target = Job(job)
+        else:
+            co = worker(job)
+            co.send(None)
+            target = co
+        problems = []
+        try:
+            with warnings.catch_warnings():
+                warnings.simplefilter("ignore")
+                st = stackscope.extract(target)
+        except BaseException as ex:  # noqa
+            st = None
+            problems.append("extract raised %r" % (ex,))
+        Job.broken = False
+        if st is not None:
+            if st.error is None:
+                problems.append("no error reported for an item that never finishes unwrapping")
+            if label == "awaited" and [f.pyframe for f in st.frames] != [co.cr_frame]:
+                problems.append("frames outward of the failure lost: %r" % ([f.funcname for f in st.frames],))
+            try:
+                "".join(st.format())
+                "".join(st.format_flat())
+            except Exception as ex:
+                problems.append("formatting the result raised %r" % (ex,))
+        if co is not None:
+            co.close()
+        ctx.count("evaluations")
+        ctx.count("distinct_nontrivial")
+        ctx.count("hostile_items")
+        if problems:
+            ctx.violation({"scenario": "hostile", "label": label}, "; ".join(problems)[:1000], "hostile")
+
+
 def run(ctx):
     arity = bounds(ctx.tier)["fault_arity"]
     py312 = sys.version_info[:2] == (3, 12)
@@ -715,6 +794,8 @@ def run(ctx):
             sc.teardown()
         ctx.sample({"scenario": sc.name})
     nonstack_inputs(ctx)
+    if ctx.shard == 0:
+        hostile_items(ctx)
 
 
 def run_trio(ctx, H, arity):
@@ -760,6 +841,25 @@ def run_trio(ctx, H, arity):
 
 
 def replay(case):
+    if case.get("scenario") == "hostile":
+        class C0(object):
+            shard = 0
+
+            def __init__(s):
+                s.v = []
+
+            def mine(s, i):
+                return True
+
+            def count(s, *a):
+                pass
+
+            def violation(s, c, d, sig):
+                if c.get("label") == case.get("label"):
+                    s.v.append({"detail": d})
+        c0 = C0()
+        hostile_items(c0)
+        return c0.v
     if case.get("scenario") == "nonstack":
         class C(object):
             def __init__(s):
